@@ -6,6 +6,8 @@ import (
 	"fmt"
 	"runtime"
 	"strings"
+	"sync"
+	"sync/atomic"
 
 	"github.com/akalin/gopar/gf2p16"
 	"github.com/akalin/gopar/par2"
@@ -340,6 +342,7 @@ func c12Gen(g *core.Gen) {
 				g.Emit(&c12Case{Kind: "race", Len: l, D: 3, P: 2, GLo: 1, GHi: 9, Procs: procs, Odd: true})
 			}
 			g.Emit(&c12Case{Kind: "race", Len: 0, Procs: procs})
+			g.Emit(&c12Case{Kind: "race", Len: -1, Procs: procs})
 		}
 		return
 	}
@@ -454,7 +457,58 @@ func c12Run(ci interface{}, r *core.Rec) {
 		old := runtime.GOMAXPROCS(c.Procs)
 		defer runtime.GOMAXPROCS(old)
 		n := 0
-		if c.Len == 0 {
+		if c.Len == -1 {
+			// independent objects used concurrently: four goroutines, each with coders and matrices of its own (unrelated
+			// erasure patterns that need pivot swaps), a hundred rounds each - whatever they share behind the scenes (a
+			// scratch row, a pooled buffer, a memo) is shared without their knowing
+			var wg sync.WaitGroup
+			var bad int32
+			for w := 0; w < 4; w++ {
+				wg.Add(1)
+				go func(w int) {
+					defer wg.Done()
+					for rep := 0; rep < 100; rep++ {
+						nn := 3 + (w+rep)%4
+						// a cyclic-shift permutation scaled by distinct constants: every pivot needs a swap
+						m := gf2p16.NewMatrixFromFunction(nn, nn, func(i, j int) gf2p16.T {
+							if j == (i+1+w%2)%nn {
+								return gf2p16.T(2 + i + 7*w)
+							}
+							return 0
+						})
+						inv, err := m.Inverse()
+						if err != nil {
+							atomic.AddInt32(&bad, 1)
+							continue
+						}
+						p := m.Times(inv)
+						for i := 0; i < nn; i++ {
+							for j := 0; j < nn; j++ {
+								if (p.At(i, j) == 1) != (i == j) || (i != j && p.At(i, j) != 0) {
+									atomic.AddInt32(&bad, 1)
+								}
+							}
+						}
+						d, pp := 3+w%2, 2
+						data := c07Data(r.Seed+int64(w), d, 34+2*w)
+						coder := c12Code(d, pp, 1+rep%3)
+						par := coder.GenerateParity(data)
+						dd := make([][]byte, d)
+						for i := 1; i < d; i++ {
+							dd[i] = append([]byte{}, data[i]...)
+						}
+						if coder.ReconstructData(dd, par) != nil || !bytes.Equal(dd[0], data[0]) {
+							atomic.AddInt32(&bad, 1)
+						}
+					}
+				}(w)
+			}
+			wg.Wait()
+			if bad > 0 {
+				r.Violatef("independent-objects-interfere", "%d wrong results when four goroutines used matrices / coders of their own at the same time", bad)
+			}
+			n = 400
+		} else if c.Len == 0 {
 			for gg := 1; gg <= 8; gg++ {
 				c12Par2Body(r, r.Seed, []int{1000, 333}, 64, 5, gg)
 				c12Par2Body(r, r.Seed, []int{100, 37, 64}, 16, 4, gg)
@@ -489,7 +543,7 @@ func init() {
 		Level:   "model_checking",
 		Rule: "(i) partition arithmetic, full product through the real GenerateParity/ReconstructData: every even shard length 2..600 (+1024..65550) x goroutine count 1..40 (and > number of 16-byte units) x codes (2,2),(3,2), and every even length 2..200 x g 1..16 x codes (6,5),(9,8) (several missing rows per goroutine), compared with g=1 (the data list is a window into a longer list whose entries behind it must stay untouched); every row count 1..40 x 64 KiB shards and 60..130 x 4 KiB shards x g 1..3; the (3,2) code also with every input shard displaced to an odd address inside a larger buffer; " +
 			"(ii) controlled-scheduler exploration of the real worker goroutines (sources instrumented from the current tree and injected with go build -overlay): for encode and reconstruct configurations (workers x kernel calls), EVERY interleaving at kernel-call/synchronisation granularity (unbounded), and every interleaving with <=2 (thorough 3) preemptions at statement granularity; per execution: output == single-goroutine bytes, recorded kernel access sets of different workers conflict-free, no deadlock; " +
-			"(iii) Create / Repair through par2 for g in 1..12, and for the default count (option 0 / -1) under GOMAXPROCS {1,2,3,4,16}, byte-identical to g=1, over three damage kinds (beyond capacity, one slice hit, shortest file deleted) x {no, each} recovery block spoiled inside a well-formed packet with DoubleCheck on; (iv) the same bodies free-running under the race detector (separate -race build, GOMAXPROCS 1,2,4,16). non-trivial = executions with >=2 runnable threads at some choice point / g>1 cases",
+			"(iii) Create / Repair through par2 for g in 1..12, and for the default count (option 0 / -1) under GOMAXPROCS {1,2,3,4,16}, byte-identical to g=1, over three damage kinds (beyond capacity, one slice hit, shortest file deleted) x {no, each} recovery block spoiled inside a well-formed packet with DoubleCheck on; (iv) the same bodies free-running under the race detector (separate -race build, GOMAXPROCS 1,2,4,16), plus four goroutines using matrices and coders of their own concurrently. non-trivial = executions with >=2 runnable threads at some choice point / g>1 cases",
 		Assumptions: []string{"the controlled scheduler is sequentially consistent; weak-memory effects are covered only by the race-detector pass (no race => SC)", "scheduling points: spawn, exit, WaitGroup/Mutex operations, kernel calls, and (statement granularity) every statement of the instrumented files"},
 		NewCase:     func() interface{} { return &c12Case{} },
 		Gen:         c12Gen,
